@@ -19,8 +19,12 @@ package boltz
 //@   ensures[valid-iff-some-entity-matches] (curPos[result] < curLen[result]) == idsMatch(self, ref(filter), bktHas, bktSub, bktVal)
 //@ func (Store).getLinks
 //@   pure
+// esPathArr/esPathLen(sym): the bucket path of a symbol below its entity's bucket
+//@ spec esPathArr(sym Int) (Array Int Str)
+//@ spec esPathLen(sym Int) Int
 //@ func (EntitySymbol).GetPath
 //@   pure
+//@   ensures[the-symbol's-path] arr(result) == esPathArr(self) && len(result) == esPathLen(self)
 // rtHasElems(sym, row, db): the set symbol has at least one element on the row in database state db
 //@ spec rtHasElems(sym Int, row Str, has (Array Int (Array Str Bool)), sub (Array Int (Array Str Int)), val (Array Int (Array Str Str))) Bool
 //@ func (RuntimeEntitySetSymbol).OpenCursor
@@ -48,13 +52,19 @@ package boltz
 //@   ensures result != nil
 // typed bucket navigation: Get* never writes; GetOrCreate* may
 //@ func (*TypedBucket).GetPath
-//@   props C09
+//@   props C09 C05
 //@   nosafety
 //@   nilrecv
-//@   modifies *
+//@   pure
 //@   ensures[read-only] dbSame()
+//@   censures[stable-name-of-the-nested-bucket] bucket != nil && old(bucket.Err) == nil && result != nil ==> result.ErrorHolderImpl != nil && result.Err == nil && result.Bucket != nil && ref(result.Bucket) == pathUnder(old(bucket.Bucket), arr(path), len(path))
+//@   censures[a-missing-bucket-has-no-keys] bucket != nil && old(bucket.Err) == nil && result == nil ==> forallStr(k, !sel(bktHas[pathUnder(old(bucket.Bucket), arr(path), len(path))], k))
 //@   invariant 1: dbSame()
 // the GetOrCreate family only ever creates buckets (assumed: these are not verified here)
+// pathUnder(b, path, n): the bucket reached from b by the path (a stable name; a bucket that does not exist has no keys)
+//@ spec pathUnder(b Int, path (Array Int Str), n Int) Int
+// plainSame(): in every bucket the plain keys (entries that are not nested buckets) are the same as on entry
+//@ define plainSame() = forall(b, forallStr(k, (sel(bktHas[b], k) && sel(bktSub[b], k) == 0) == (old(sel(bktHas[b], k)) && old(sel(bktSub[b], k)) == 0)))
 //@ func (*TypedBucket).GetOrCreatePath
 //@   props C04
 //@   nosafety
@@ -63,7 +73,9 @@ package boltz
 //@   ensures[a-bucket-or-an-error] result != nil && result.ErrorHolderImpl != nil && (result.Err == nil ==> result.Bucket != nil)
 //@   ensures[pending-error-or-empty-path-is-the-bucket-itself] bucket.Err != nil || len(path) == 0 ==> result == bucket && dbSame()
 //@   ensures[values-untouched] bktVal == old(bktVal)
-//@   invariant 1: next != nil && next.ErrorHolderImpl != nil && next.Err == nil && next.Bucket != nil && bktVal == old(bktVal)
+//@   ensures[plain-entries-neither-added-nor-removed] plainSame()
+//@   censures[stable-name-of-the-nested-bucket] bucket.Err == nil && result.Err == nil ==> ref(result.Bucket) == pathUnder(bucket.Bucket, arr(path), len(path))
+//@   invariant 1: next != nil && next.ErrorHolderImpl != nil && next.Err == nil && next.Bucket != nil && bktVal == old(bktVal) && plainSame()
 //@ func GetOrCreatePath
 //@   modifies bktHas, bktVal, bktSub
 //@ func ErrBucket
@@ -157,8 +169,6 @@ package boltz
 //@   invariant 1: ciFix == fix && (!fix ==> dbSame())
 
 // ---- link collections ----
-//@ func (*linkCollectionImpl).getFieldBucket
-//@   modifies *
 //@ func (*linkCollectionImpl).IterateLinks
 //@   props C09
 //@   nosafety
